@@ -29,7 +29,12 @@ import (
 
 const vKnownC53 = "C53:dir-file-type-change-hides-descendants"
 
-var vNamesC53 = []string{"a", "b", "c", "d", "e.txt", "sub", "x y", "über"}
+// names with prefix relations: a directory D next to a sibling whose name is D followed by
+// a byte that sorts before '/' (space + - .) is where "order of names" and "order of
+// paths" disagree
+var vNamesC53 = []string{"a", "a.b", "b", "foo", "foo.tar", "foo-old", "foo bar", "foo+", "sub", "über"}
+
+var vPrefixOfC53 = map[string]string{"a.b": "a", "foo.tar": "foo", "foo-old": "foo", "foo bar": "foo", "foo+": "foo"}
 
 // ---------------------------------------------------------------------------
 // stored trees
@@ -442,6 +447,21 @@ func (ed *vEditorC53) newPath(label string) (string, bool) {
 			dirs = append(dirs, p)
 		}
 	}
+	if rapid.IntRange(0, 2).Draw(ed.t, label+"directed") == 0 {
+		// a new entry named like the prefix of an existing sibling ("foo" next to "foo.tar")
+		var c []string
+		for _, p := range ed.tr.Paths() {
+			if pre, ok := vPrefixOfC53[path.Base(p)]; ok {
+				q := path.Join(path.Dir(p), pre)
+				if _, exists := ed.tr[q]; !exists && strings.Count(q, "/") < 4 {
+					c = append(c, q)
+				}
+			}
+		}
+		if len(c) > 0 {
+			return rapid.SampledFrom(c).Draw(ed.t, label+"prefixsibling"), true
+		}
+	}
 	for try := 0; try < 4; try++ {
 		d := rapid.SampledFrom(dirs).Draw(ed.t, label+"dir")
 		n := rapid.SampledFrom(append([]string{"new", "n2"}, vNamesC53...)).Draw(ed.t, label+"name")
@@ -799,6 +819,21 @@ func TestVerifC53Diff(t *testing.T) {
 					}
 				}
 			}
+			// a directory present in only one snapshot whose name is a proper prefix of a
+			// sibling's name in the OTHER snapshot, continued by a byte below '/'
+			prefixSibling := false
+			for _, pair := range [][2]*vStoredC53{{a, b}, {b, a}} {
+				for p, n := range pair[0].Nodes {
+					if n.Type != data.NodeTypeDir || pair[1].Nodes[p] != nil {
+						continue
+					}
+					for q := range pair[1].Nodes {
+						if path.Dir(q) == path.Dir(p) && len(q) > len(p) && strings.HasPrefix(q, p) && q[len(p)] < '/' {
+							prefixSibling = true
+						}
+					}
+				}
+			}
 			mods := map[string]bool{}
 			deep := false
 			for p, w := range want {
@@ -822,7 +857,8 @@ func TestVerifC53Diff(t *testing.T) {
 			}
 			classes := []string{"form=" + form, fmt.Sprintf("metadata=%v", metadata), fmt.Sprintf("reverse=%v", reverse),
 				fmt.Sprintf("identical-sibling-subtree=%v", identicalSibling), fmt.Sprintf("deep-change=%v", deep),
-				fmt.Sprintf("dir-nondir-type-change=%v", nDirType > 0), fmt.Sprintf("edits=%d", len(ed.log))}
+				fmt.Sprintf("dir-nondir-type-change=%v", nDirType > 0), fmt.Sprintf("edits=%d", len(ed.log)),
+				fmt.Sprintf("dir-next-to-prefixed-sibling=%v", prefixSibling)}
 			for m := range mods {
 				classes = append(classes, "want="+m)
 			}
